@@ -159,6 +159,76 @@ func goexitPlain() int {
 	return 2
 }
 
+// a deferred call of lateCaller calls recoverLate, which panics and recovers its own panic in a deferred call that may
+// suspend before it calls recover: the pending panic belongs to recoverLate's frame, not to the first frame resumed
+func recoverLate() (r int) {
+	defer func() {
+		y.Y(23)
+		if x := recover(); x != nil {
+			r = 500 + pval(x)
+		} else {
+			r = -1
+		}
+		y.Y(24)
+	}()
+	panic(4 + y.Y(25) - 25)
+}
+
+func lateCaller() (r int) {
+	defer func() {
+		r = recoverLate()
+		y.Tr(70 + y.Y(26) - 26)
+	}()
+	return 0
+}
+
+// the same while lateCaller2 itself is panicking
+func lateCaller2() (r int) {
+	defer func() {
+		x := recover()
+		r = 600 + pval(x)
+	}()
+	defer func() {
+		y.Tr(recoverLate())
+	}()
+	panic(33)
+}
+
+// a deferred call resumes and calls Goexit while a panic is in flight: the panic is gone for later deferred calls
+func goexitAfterResume() int {
+	defer func() {
+		if x := recover(); x != nil {
+			y.Tr(80 + pval(x))
+		} else {
+			y.Tr(81)
+		}
+	}()
+	defer func() {
+		y.Y(27)
+		runtime.Goexit()
+	}()
+	panic(5)
+}
+
+func ng() int {
+	if runtime.NumGoroutine() >= 2 { // main and this scenario's goroutine at least
+		return 1
+	}
+	return 0
+}
+
+// a goroutine that called Goexit and is parked in a deferred call still counts
+func goexitCounted() int {
+	defer func() {
+		y.Y(28)
+		y.Tr(90 + ng())
+		y.Y(29)
+		y.Tr(90 + ng())
+	}()
+	exiter()
+	return 3
+}
+
 func runScenario(k int, done chan int) {
 	y.Cur = k
 	defer func() {
@@ -185,6 +255,14 @@ func runScenario(k int, done chan int) {
 		y.Tr(goexitRecovered())
 	case 7:
 		y.Tr(goexitPlain())
+	case 8:
+		y.Tr(lateCaller())
+	case 9:
+		y.Tr(lateCaller2())
+	case 10:
+		y.Tr(goexitAfterResume())
+	case 11:
+		y.Tr(goexitCounted())
 	}
 	println(k, "FIN")
 }
